@@ -113,15 +113,15 @@ Print Assumptions C03_selector_hides_only.
 
 (* ---- the executable oracles used on the implementation's output are sound ---- *)
 
-Theorem C03_oracle_sound : forall input names obs,
-  reg_ok input names obs = true ->
+Theorem C03_oracle_sound : forall input names order obs,
+  reg_ok input names order obs = true ->
   exists out,
-    pick input (map fst obs) = Some out
+    pick input order = Some out
     /\ Permutation out input
     /\ StronglySorted hdr_le out
-    /\ StronglySorted before (combine (map fst obs) out)
-    /\ Forall2 (fun e o => Forall2 row_rel (filter (fun r => keep names (fst r)) (snd e)) (snd o))
-               (spec_entries entry_posts [] out) obs
+    /\ StronglySorted before (combine order out)
+    /\ Forall2 (fun e o => fst e = fst o /\ Forall2 row_rel (snd e) (snd o))
+               (expected_entries names order out) (filter has_rows obs)
     /\ Forall (fun o => StronglySorted (fun a b => key_cmp (orow_key a) (orow_key b) <> Gt) (snd o)) obs
     /\ (names = [] -> forall p, In p (flat_map t_posts input) ->
         last_total (p_key p) (map orow_obs (flat_map snd obs))
